@@ -155,4 +155,4 @@ def _show(d):
 
 
 def parts(tier):
-    return [Part("assume", strategy=lambda t: case_strategy(t), check=check, quick=(8, 120), thorough=(16, 2000))]
+    return [Part("assume", strategy=lambda t: case_strategy(t), check=check, quick=(8, 300), thorough=(16, 2500))]
